@@ -139,6 +139,12 @@ class SymVC:
 
         return self._reg(name, api.sbytes(n, name))
 
+    def pick(self, name, values, width):
+        """an int input restricted to the given values (precondition)"""
+        v = self.uint(width, name)
+        self.assume(self.or_(*[self.eq(v, x) for x in values]))
+        return v
+
     def nat(self, name, lo=0):
         """unbounded integer >= lo (state-machine counters)"""
         from .zint import SZInt
@@ -418,6 +424,14 @@ class NativeVC:
 
     def flag(self, name):
         return bool(self.uint(1, name))
+
+    def pick(self, name, values, width):
+        values = list(values)
+        if name in self.w:
+            return int(self.w[name])
+        v = self.rnd.choice(values) if self.rnd else values[0]
+        self.drawn[name] = v
+        return v
 
     def nat(self, name, lo=0):
         if name in self.w:
